@@ -5,9 +5,9 @@ CONSTANTS
   SyncBeforeMeta = "always"
   SyncAfterMeta = TRUE
   RegisterFirst = TRUE
-  OldDelDeletedEarly = TRUE
+  OldDelDeletedEarly = FALSE
   GcProtectsBuilding = TRUE
   MaxFaults = 1
-  StoreMetaFirst = FALSE
-INVARIANT CrashSafe
+  StoreMetaFirst = TRUE
+INVARIANT NeverDeletesNeeded
 CHECK_DEADLOCK FALSE
